@@ -298,6 +298,25 @@ def run(repo: Repo, rep: Report, tier: str) -> None:
             rep.violation("R2.3", f"{dg.module.relpath}:DataclassGenerator.generate property list", f"{dg.fq}|props-filtered", "the property list is filtered before fields are generated", dg.loc(loop))
 
     # ---------------------------------------------------------------- R2.6 registration on the way out
+    from sa.report import with_flatten_fallback
+
+    with_flatten_fallback(rep, ps, _rule_2_6)
+
+
+def _rule_2_6(ps, rep) -> None:
+    """R2.6 on `_parse_schema` as written or with its registration helper written out (sa/flatten.py)."""
+    cfg = CFG(ps.node)
+    dom = cfg.dominators()
+    PL = Locals(ps.node)
+    ctor = [n for n in cfg.nodes if n.kind == "stmt" and isinstance(n.ast, (ast.Assign, ast.AnnAssign)) and not n.copy
+            and isinstance(n.ast.value, ast.Call) and (dotted(n.ast.value.func) or "").split(".")[-1] == "IRSchema"
+            and isinstance(n.ast.targets[0] if isinstance(n.ast, ast.Assign) else n.ast.target, ast.Name)
+            and any(k.arg == "properties" for k in n.ast.value.keywords)]
+    ir_var = None
+    if ctor:
+        tgt = ctor[0].ast.targets[0] if isinstance(ctor[0].ast, ast.Assign) else ctor[0].ast.target
+        ir_var = tgt.id
+
     def is_ir(e: Optional[ast.AST]) -> bool:
         return isinstance(e, ast.Name) and ir_var is not None and PL.root(e.id) == ir_var
 
@@ -308,19 +327,28 @@ def run(repo: Repo, rep: Report, tier: str) -> None:
     rep.require(bool(reg) and bool(final_ret), "R2.6: registration statement / final return not found in _parse_schema")
     if reg and final_ret and ctor:
         # the condition under which registration happens: the positive guards of the registration statement inside the function's main flow
-        gtests = [g for g, p in guards(cfg, reg_nodes[0].id, dom) if g.kind == "test" and p is True and ctor[0].id in dom[g.id]]
-        gtests = [g for g in gtests if g.ast.lineno > ctor[0].ast.lineno]
-        cond_tests = [g for g in gtests if not any(isinstance(x, ast.Compare) and isinstance(x.ops[0], (ast.In, ast.IsNot, ast.Is)) for x in ast.walk(g.ast))]
-        tests = {g.id for g in cond_tests}
+        gpol = [(g, p) for g, p in guards(cfg, reg_nodes[0].id, dom) if g.kind == "test" and p is not None and ctor[0].id in dom[g.id]
+                and not isinstance(g.ast, ast.Constant)]
+        if not getattr(ps, "flattened", False):
+            gpol = [(g, p) for g, p in gpol if g.ast.lineno > ctor[0].ast.lineno]
+        gpol = [(g, p) for g, p in gpol if not any(isinstance(x, ast.Compare) and isinstance(x.ops[0], (ast.In, ast.IsNot, ast.Is)) for x in ast.walk(g.ast))]
+        tests = {g.id for g, _ in gpol}
         saved = {t: list(cfg.succ[t]) for t in tests}
-        for t in tests:
-            cfg.succ[t] = [(m, lab) for m, lab in cfg.succ[t] if lab != "false"]
+        for g, pol in gpol:
+            # keep only the branch on which registration is decided *for*: the path that skips registration through this test is the allowed one
+            cfg.succ[g.id] = [(m, lab) for m, lab in cfg.succ[g.id] if lab != ("false" if pol else "true")]
         w = cfg.must_pass(ctor[0].id, reg, {final_ret[-1].id})
         for t, v in saved.items():
             cfg.succ[t] = v
         conj: List[ast.AST] = []
-        for g in cond_tests:
-            for c in _conj(g.ast):
+        for g, pol in gpol:
+            if pol:
+                cs = _conj(g.ast)
+            else:
+                # `if a or b: <skip>` - registration runs where every disjunct is false
+                ds = g.ast.values if isinstance(g.ast, ast.BoolOp) and isinstance(g.ast.op, ast.Or) else [g.ast]
+                cs = [d.operand if isinstance(d, ast.UnaryOp) and isinstance(d.op, ast.Not) else ast.UnaryOp(op=ast.Not(), operand=d) for d in ds]
+            for c in cs:
                 ci = PL.inline(c, depth=1, stop=tuple(PL.params) + (ir_var or "",))
                 conj += _conj(ci)
         extra = []
